@@ -28,6 +28,11 @@ def get_function(relpath, func, cls=None):
     return fs[0]
 
 
+def _own_function(obj, relpath):
+    code = getattr(obj, '__code__', None)
+    return code is not None and os.path.realpath(code.co_filename) == os.path.realpath(os.path.join(REPO, relpath))
+
+
 def module_env(relpath, glob):
     """namespace for executing a slice: the module-level helper functions and simple constants of the source file (so that
     a statement refactored into a helper still resolves), overlaid with the caller's stubs/proxies `glob` (which win).
@@ -40,8 +45,8 @@ def module_env(relpath, glob):
         rest = []
         for n in pending:
             names = [n.name] if isinstance(n, ast.FunctionDef) else [t.id for t in n.targets]
-            if any(k in glob for k in names):
-                continue                      # the caller's stub wins
+            if any(k in glob and not _own_function(glob[k], relpath) for k in names):
+                continue                      # the caller's stub wins (the module's own functions are re-made so that they see the stubs)
             mod = ast.Module(body=[n], type_ignores=[])
             try:
                 exec(compile(mod, '<module helpers of %s>' % relpath, 'exec'), ns)
@@ -87,8 +92,36 @@ def _matches(st, targets, calls, raises):
     return None
 
 
-def slice_function(relpath, func, targets, params, cls=None, calls=(), raises=False, returns=None, name='sliced', verbose=False, flatten_loops=False, closure=True, closure_exclude=None):
-    """returns (callable_factory, source_text). callable_factory(globals_dict) -> function(*params)"""
+def functions_of(relpath):
+    tree = ast.parse(open(os.path.join(REPO, relpath)).read())
+    return [n for n in tree.body if isinstance(n, ast.FunctionDef)]
+
+
+def slice_function(relpath, func, targets, params, cls=None, calls=(), raises=False, returns=None, name='sliced', verbose=False, flatten_loops=False, closure=True, closure_exclude=None,
+                   search=False, optional_calls=False):
+    """returns (callable_factory, source_text). callable_factory(globals_dict) -> function(*params)
+    search: if the anchors are not in `func`, take the first other module-level function that has them all (a statement moved
+    into a helper keeps its names more often than its place).  optional_calls: call anchors that are missing are dropped."""
+    try:
+        return _slice_function(relpath, func, targets, params, cls, calls, raises, returns, name, verbose, flatten_loops, closure, closure_exclude)
+    except AnchorMissing as first:
+        if optional_calls and calls:
+            try:
+                return _slice_function(relpath, func, targets, params, cls, (), raises, returns, name, verbose, flatten_loops, closure, closure_exclude)
+            except AnchorMissing:
+                pass
+        if search and cls is None:
+            for f in functions_of(relpath):
+                if f.name == func:
+                    continue
+                try:
+                    return _slice_function(relpath, f.name, targets, params, None, calls, raises, returns, name, verbose, flatten_loops, closure, closure_exclude)
+                except AnchorMissing:
+                    continue
+        raise first
+
+
+def _slice_function(relpath, func, targets, params, cls=None, calls=(), raises=False, returns=None, name='sliced', verbose=False, flatten_loops=False, closure=True, closure_exclude=None):
     f = get_function(relpath, func, cls)
     found = set()
 
